@@ -42,3 +42,15 @@ Theorem partition_fails_iff :
   forall rules, pa_labels rules = None <-> exists r, In r rules /\ keys_of rules r = None.
 Proof. exact pa_labels_none. Qed.
 Print Assumptions partition_fails_iff.
+
+(* AT DOCUMENT LEVEL: whatever mapping groups the partitioner forms (any labelling of the rules), what the engine materialises group by
+   group for a document of plain triples maps is exactly what the generation rules read off the document (end-to-end theorem of C01) *)
+From Morph Require Import Model.Mapping Model.Spec Model.Fragment Proofs.TermP Proofs.RowSpecP Proofs.DocEngineP Proofs.DocUnionP.
+Theorem any_partitioning_gives_the_generation_rules_document : forall cfg fe scfg raw (lab : rule -> label) d0 rules l,
+  cfg_agree cfg scfg -> c_nquads cfg = s_nquads scfg -> s_na scfg = c_na cfg ->
+  forallb plain_tm d0 = true -> normalise d0 = Ok rules -> (forall rl, In rl rules -> simple_rule rl) ->
+  (forall rl rw n, In rl rules -> In rw (raw (r_src rl)) -> In n (rule_names rl) -> assoc n rw <> None) ->
+  materialize_grouped cfg fe rules (delivered cfg raw) lab = Ok l ->
+  forall x, In x l <-> In x (spec_lines scfg fe d0 (spec_tables raw)).
+Proof. exact grouped_document_is_spec_document. Qed.
+Print Assumptions any_partitioning_gives_the_generation_rules_document.
